@@ -37,4 +37,15 @@ TEXTS['C16'] = {
     'technique': "Lean 4 proof (invariant + refinement to the object's prefix) + differential correspondence",
 }
 
+TEXTS['C17'] = {
+    'text': "Lean theorems over every sequence of the coordinator's public operations (unbounded): done() is stable, a "
+            "finished transfer cannot be restarted, the first recorded failure/cancellation is kept unless set_result or an "
+            "explicit override replaces it, exception stored iff status failed/cancelled and result() raises exactly it, "
+            "cleanups/done callbacks run at most once. Thread interleavings are sequences of these atomic steps; that the "
+            "real operations are atomic is checked by running 2-3 threads on the real coordinator under the deterministic "
+            "scheduler and replaying the operations on the model in state-lock acquisition order.",
+    'note': COMMON_NOTE + "threading.Lock/Event are shims under the scheduler; GIL-level atomicity of single attribute reads.",
+    'technique': "Lean 4 proof (case analysis + induction over op sequences) + sequential and scheduled correspondence",
+}
+
 NOT_APPLICABLE = []
